@@ -35,7 +35,7 @@ EXPLANATION = (
     "its first suspension points, for logs with the terminal event last / in the middle / absent and cursors before, inside and beyond the log: delivered events are "
     "exactly those above the cursor, in order, once each; the generator returns right after the first terminal event and never otherwise; it never ends or blocks "
     "forever with undelivered events (lost wake-up), and raises nothing. "
-    "R4 (stretch) `_get_event_subtypes` interpreted on every repo subclass of StopEvent yields a types list that `_is_terminal_event` recognises, and on no other Event class. "
+    "R4 (stretch) `EventEnvelopeWithMetadata.from_event` interpreted on an instance of every repo subclass of StopEvent yields type/types that `_is_terminal_event` recognises, and on no other Event class of the workflows package. "
     "R5 (stretch) `_resolve_event_stream`: with cursor None ('now') the stream starts after the current maximum sequence; with cursor k it yields exactly the events above k "
     "with their stored sequence as id; `_stream_events` passes Last-Event-ID (if an integer, SSE mode) over the query parameter, 'now'/absent as None. "
     "Not decided: real asyncio scheduling fairness, SQLite locking between processes, the SSE text framing and heartbeat task, delivery over the network, eviction of a run's "
@@ -547,7 +547,7 @@ def rule_r3(chk: Any, lh: LogHarness, thorough: bool, fixture: bool = False) -> 
                    m=m, node=sfn, fn=sfn, instance=f"{kind}:subscribe:{cat}", reason=fails.get(cat, ""))
             chk.ob("C16.R3", f"{kind} `subscribe_events`, cursor ahead of the log stored at subscription time: {text}", "ahead:" + cat not in fails,
                    m=m, node=sfn, fn=sfn, instance=f"{kind}:subscribe-ahead:{cat}", reason=fails.get("ahead:" + cat, ""))
-    chk.floor("C16.R3", "schedules executed (subscriber generator x append placements)", runs, (300 if not thorough else 2000) if not fixture else 1)
+    chk.floor("C16.R3", "schedules executed (subscriber generator x append placements)", runs, (300 if not thorough else 1500) if not fixture else 1)
     chk.extra["schedules"] = runs
 
 
@@ -567,13 +567,16 @@ def rule_r4(chk: Any, lh: LogHarness) -> None:
     chk.floor("C16.R4", "StopEvent classes in the repository (incl. StopEvent)", len(stops), 4)
     chk.floor("C16.R4", "non-terminal Event classes in the workflows package", len(others), 3)
     it = XInterp(w, ma)
+    me, env_cls = repo.cls(f"{ENV}:EventEnvelopeWithMetadata")
+    env_ref = it._classref(f"{ENV}:EventEnvelopeWithMetadata", me, env_cls)
+    w.method_hooks[("Event", "model_dump")] = lambda rec, **k: {}
     bad = ""
     for ref in stops + others:
         mm, cc = repo.cls(ref)
-        cref = it._classref(ref, mm, cc)
+        it._classref(ref, mm, cc)
         try:
-            types = _guard("C16.R4", "_get_event_subtypes", lambda: w.call(f"{ENV}:_get_event_subtypes", cref))
-            env = lh.envelope(value={}, qualified_name=None, type=cc.name, types=types)
+            env = _guard("C16.R4", "EventEnvelopeWithMetadata.from_event", lambda: it.apply(it.getattr_(env_ref, "from_event"), [Record(cc.name)], {}))
+            types = env.types
             stored = w.new(f"{ABS}:StoredEvent", run_id=RUN, sequence=0, timestamp=None, event=env)
             got = _guard("C16.R4", "_is_terminal_event", lambda: it.call_fn(FnRef(term, ma), None, [stored], {}))
         except Raised as r:
@@ -581,7 +584,7 @@ def rule_r4(chk: Any, lh: LogHarness) -> None:
             continue
         want = ref in stops
         if bool(got) != want:
-            bad = bad or f"{cc.name}: from_event writes type={cc.name!r}, types={types}; _is_terminal_event says {got}, expected {want}"
+            bad = bad or f"{cc.name}: from_event writes type={env.type!r}, types={types}; _is_terminal_event says {got}, expected {want}"
     chk.ob("C16.R4", f"the envelope metadata written for an event class makes `_is_terminal_event` true exactly for StopEvent and its subclasses ({len(stops)} terminal, {len(others)} other classes)",
            not bad, m=ma, node=term, fn=term, instance="terminal-recognition", reason=bad)
 
@@ -778,10 +781,10 @@ TWINS: list[Twin] = [
     Twin("sqlite: terminal test looks at the end of the batch", _PS, "                cursor = event.sequence\n                if self._is_terminal_event(event):", "                cursor = event.sequence\n                if self._is_terminal_event(batch[-1]):", "C16.R3"),
     Twin("memory: terminal test looks at the end of the batch", _PM, "                cursor += 1\n                if self._is_terminal_event(event):", "                cursor += 1\n                if self._is_terminal_event(batch[-1]):", "C16.R3"),
     Twin("terminal test ignores subclasses of StopEvent", _PA, "        return StopEvent.__name__ in types", "        return event.event.type == StopEvent.__name__", "C16.R3"),
-    Twin("memory: untimed wait outside any re-check loop", _PM, "                if not batch:\n                    await condition.wait()\n                    continue\n", "                if not batch:\n                    await condition.wait()\n                    batch = all_events[cursor:]\n", None),
+    Twin("benign: batch re-read after the wake-up instead of `continue`", _PM, "                if not batch:\n                    await condition.wait()\n                    continue\n", "                if not batch:\n                    await condition.wait()\n                    batch = all_events[cursor:]\n", None),
     # ---- R4 breaking
     Twin("envelope drops the nearest base class name", _PENV, "for c in cls.mro()[1:]:", "for c in cls.mro()[2:]:", "C16.R4"),
-    Twin("envelope lists only non-terminal bases", _PENV, "        if issubclass(c, Event):\n            names.append(c.__name__)", "        if issubclass(c, Event) and not issubclass(c, StopEvent):\n            names.append(c.__name__)", "C16.R4"),
+    Twin("envelope written without base-class names", _PENV, "            types=_get_event_subtypes(type(event)),", "            types=None,", "C16.R4"),
     # ---- R5 breaking
     Twin("'now' on an empty log skips sequence 0", _PAPI, "after_sequence = all_current[-1].sequence if all_current else -1", "after_sequence = all_current[-1].sequence if all_current else 0", "C16.R5"),
     Twin("'now' resolved to the event count", _PAPI, "after_sequence = all_current[-1].sequence if all_current else -1", "after_sequence = len(all_current)", "C16.R5"),
